@@ -427,9 +427,12 @@ package lib
 //@ import geoip "github.com/refraction-networking/conjure/pkg/station/geoip"
 //@ func (t Transport) GetProto() pb.IPProto
 //@   assigns nothing
+// (both implementations are verified against "a lookup error never carries the looked-up address" in pkg/station/geoip)
 //@ func (db geoip.Database) CC(ip net.IP) (string, error)
+//@   ensures result1 == nil || addrFree(result1)
 //@   assigns nothing
 //@ func (db geoip.Database) ASN(ip net.IP) (uint, error)
+//@   ensures result1 == nil || addrFree(result1)
 //@   assigns nothing
 
 //@ func (rm *RegistrationManager) NewRegistration(c2s *pb.ClientToStation, conjureKeys *core.ConjureSharedKeys, includeV6 bool, registrationSource *pb.RegistrationSource) (*DecoyRegistration, error)
